@@ -301,3 +301,124 @@ class UnknownLen:
 
     def __add__(self, o):
         return self
+
+
+# ---------------------------------------------------------------------------------------------
+# generated encoders
+# ---------------------------------------------------------------------------------------------
+from contracts.utils_c import EncodeNumber
+
+_EN = EncodeNumber()
+LOOKUP_CODE = z3.Function('lookup_code', z3.IntSort(), z3.IntSort(), z3.IntSort())   # (table id, value id) -> code
+DATE_DAYS = z3.Function('date_days', z3.IntSort(), z3.IntSort())
+SINGLE_BITS = z3.Function('ieee_single_bits', z3.RealSort(), z3.IntSort())
+
+
+def alts_of(v):
+    if isinstance(v, GV):
+        return list(v.alts)
+    return [(z3.BoolVal(True), v)]
+
+
+def c_encode_number(ex, f, args, kwargs):
+    value, L, signed, res = args[:4]
+    offset = args[4] if len(args) > 4 else kwargs.get('offset', 0)
+    ok = isinstance(L, int) and 1 <= L <= 64 and isinstance(signed, bool) and not isinstance(res, Sym) and res != 0
+    ex.oblige('requires@callsite[utils.encode_number: 1<=bit_length<=64, literal arguments, resolution != 0]', ok)
+    if not ok:
+        raise Unsupported('encode_number call site outside the contract')
+    n = ex.ghost.setdefault('ncalls', [0])
+    n[0] += 1
+    rets = []
+    for g, v in alts_of(value):
+        if not (v is None or V.is_numeric(v)):
+            # encode_number on a non-number: TypeError from the arithmetic
+            ex.collect_raise('TypeError', g, f'encode_number#{n[0]}')
+            continue
+        for a in _EN.outcome(v, L, signed, res, offset):
+            ga = z3.BoolVal(True) if a.guard is True else (z3.BoolVal(False) if a.guard is False else bool_term(a.guard))
+            if a.kind == 'raise':
+                ex.collect_raise(a.exc, z3.And(g, ga), f'encode_number#{n[0]}')
+            else:
+                rets.append((z3.And(g, ga), a.value))
+    if not rets:
+        from pyvc.symex import PathAbort
+        raise PathAbort()
+    return GV.make(rets)
+
+
+class TableIds:
+    ids = {}
+
+    @classmethod
+    def of(cls, name):
+        return cls.ids.setdefault(name, len(cls.ids) + 1)
+
+
+def make_lookup_encode(name):
+    def call(ex, f, args, kwargs):
+        # result = code of the name in the table, or Exception if the name is unknown: kept abstract
+        v = args[0]
+        code = ex.fresh(f'lookup_code_{name}', 'int')
+        unknown = ex.fresh(f'lookup_unknown_{name}', 'bool')
+        ex.collect_raise('Exception', unknown, f'lookup_encode_{name}')
+        return code
+    return call
+
+
+def c_encode_time(ex, f, args, kwargs):
+    t, L = args
+    rets = []
+    for g, v in alts_of(t):
+        if v is None:
+            rets.append((g, (1 << L) - 1))
+        else:
+            rets.append((g, mk_int(z3.Function('time_seconds', z3.IntSort(), z3.IntSort())(z3.IntVal(id(v) % 1000003)))))
+    return GV.make(rets)
+
+
+def c_encode_date(ex, f, args, kwargs):
+    rets = []
+    dv = args[0]
+    L = args[1] if len(args) > 1 else None
+    for g, v in alts_of(dv):
+        if v is None:
+            if L is None:
+                ex.collect_raise('TypeError', g, 'encode_date(None)')
+            else:
+                rets.append((g, (1 << L) - 1))
+        else:
+            rets.append((g, mk_int(DATE_DAYS(z3.IntVal(id(v) % 1000003)))))
+    if not rets:
+        from pyvc.symex import PathAbort
+        raise PathAbort()
+    return GV.make(rets)
+
+
+def c_encode_float(ex, f, args, kwargs):
+    rets = []
+    for g, v in alts_of(args[0]):
+        if v is None:
+            ex.collect_raise('ValueError', g, 'encode_float(None)')
+        else:
+            r = mk_int(SINGLE_BITS(V.float_term(v)), (1 << 32) - 1)
+            ex.assume(z3.And(r.t >= 0, r.t < (1 << 32)))
+            rets.append((g, r))
+    if not rets:
+        from pyvc.symex import PathAbort
+        raise PathAbort()
+    return GV.make(rets)
+
+
+def encoder_contracts(repo):
+    c = {
+        'nmea2000.utils.encode_number': c_encode_number,
+        'nmea2000.utils.encode_time': c_encode_time,
+        'nmea2000.utils.encode_date': c_encode_date,
+        'nmea2000.utils.encode_float': c_encode_float,
+    }
+    mod = repo.load('pgns')
+    for name in mod.functions:
+        if name.startswith('lookup_encode_'):
+            c[f'nmea2000.pgns.{name}'] = make_lookup_encode(name[len('lookup_encode_'):])
+    return c
